@@ -89,6 +89,13 @@ fn extended_alphabet(thorough: bool) -> Vec<V> {
     v.push(V::F64(-1.5));
     v.push(V::I64(-2));
     v.push(V::I128(-3));
+    // strings that differ by trailing NUL characters only, around the 21-byte inline capacity of the
+    // engine's small-string representation (seeded change C15-11 compared inline strings by their
+    // zero-padded buffers: `"a" < "a\0"` and `"a\0" < "a"` both false while `==` is false)
+    v.push(V::s("\0"));
+    v.push(V::s("a\0"));
+    v.push(V::s("abcdefghijklmnopqrst\0")); // 21 bytes; its prefix of 20 follows
+    v.push(V::s("abcdefghijklmnopqrst"));
     // arrays equal up to and including an (incomparable) map / nested array with a map, differing after it
     v.push(V::Arr(vec![V::map(&[("a", V::I64(1))]), V::s("x")]));
     v.push(V::Arr(vec![V::map(&[("a", V::I64(1))]), V::s("y")]));
